@@ -337,7 +337,9 @@ pub fn run_batch<S: Scenario>(scn: &Arc<S>, cfg: &CheckCfg, tag: &str, budget: D
     let found: Arc<Mutex<Vec<Found<S::P>>>> = Arc::new(Mutex::new(vec![]));
     let found_keys: Arc<Mutex<BTreeMap<String, u64>>> = Arc::new(Mutex::new(BTreeMap::new()));
     let mut handles = vec![];
-    for _w in 0..cfg.workers {
+    let skip_runs: Arc<Vec<u64>> = Arc::new(crate::crashlog::skip_list().into_iter().filter(|(part, _)| *part == crate::crashlog::CURRENT_PART.load(Ordering::Relaxed)).map(|(_, i)| i).collect());
+    for worker_no in 0..cfg.workers {
+        let skip_runs = Arc::clone(&skip_runs);
         let scn = Arc::clone(scn);
         let counter = Arc::clone(&counter);
         let stop = Arc::clone(&stop);
@@ -360,36 +362,48 @@ pub fn run_batch<S: Scenario>(scn: &Arc<S>, cfg: &CheckCfg, tag: &str, budget: D
                     let w: std::rc::Rc<std::cell::RefCell<W<S>>> = std::rc::Rc::new(std::cell::RefCell::new(W { stats: BatchStats::new(), current: None }));
                     let announce = std::env::var_os("VERIF_ANNOUNCE").is_some();
                     let only_index: Option<u64> = std::env::var("VERIF_ONLY_INDEX").ok().and_then(|s| s.parse().ok());
+                    let crash_self_test: Option<u64> = std::env::var("VERIF_SELFTEST_CRASH_AT").ok().and_then(|s| s.parse().ok());
                     // ---- job source
                     let next_job = {
                         let (scn, counter, stop, tag) = (Arc::clone(&scn), Arc::clone(&counter), Arc::clone(&stop), tag.clone());
                         move || -> Option<(u64, S::P)> {
-                            if stop.load(Ordering::Relaxed) {
-                                return None;
-                            }
-                            let idx = counter.fetch_add(1, Ordering::Relaxed);
-                            if idx >= max_runs {
-                                return None;
-                            }
-                            if idx % 64 == 0 && start.elapsed() > budget {
-                                stop.store(true, Ordering::Relaxed);
-                                return None;
-                            }
-                            let idx = match only_index {
-                                Some(only) => {
-                                    if idx > 0 {
-                                        return None;
-                                    }
-                                    only
+                            loop {
+                                if stop.load(Ordering::Relaxed) {
+                                    return None;
                                 }
-                                None => idx,
-                            };
-                            let mut rng = Rng::new(run_seed(verif_seed, &tag, idx));
-                            let p = scn.generate(&mut rng, tier);
-                            if announce {
-                                eprintln!("BEGIN {} {}", idx, serde_json::to_string(&p).unwrap_or_default());
+                                let idx = counter.fetch_add(1, Ordering::Relaxed);
+                                if idx >= max_runs {
+                                    return None;
+                                }
+                                if idx % 64 == 0 && start.elapsed() > budget {
+                                    stop.store(true, Ordering::Relaxed);
+                                    return None;
+                                }
+                                let idx = match only_index {
+                                    Some(only) => {
+                                        if idx > 0 {
+                                            return None;
+                                        }
+                                        only
+                                    }
+                                    None => idx,
+                                };
+                                if only_index.is_none() && skip_runs.contains(&idx) {
+                                    // known to kill the process (reported by the supervising parent): not executed again
+                                    continue;
+                                }
+                                let mut rng = Rng::new(run_seed(verif_seed, &tag, idx));
+                                let p = scn.generate(&mut rng, tier);
+                                crate::crashlog::note(worker_no, idx, true);
+                                if crash_self_test == Some(idx) {
+                                    // self-test of the crash supervisor (VERIF_SELFTEST_CRASH_AT=<run index>): die like corrupted memory would
+                                    unsafe { std::ptr::write_volatile(8 as *mut u8, 0) };
+                                }
+                                if announce {
+                                    eprintln!("BEGIN {} {}", idx, serde_json::to_string(&p).unwrap_or_default());
+                                }
+                                return Some((idx, p));
                             }
-                            Some((idx, p))
                         }
                     };
                     // ---- outcome sink
@@ -507,6 +521,7 @@ pub fn run_batch<S: Scenario>(scn: &Arc<S>, cfg: &CheckCfg, tag: &str, budget: D
                             sink(&mut w.borrow_mut().stats, idx, p, out);
                         }
                     }
+                    crate::crashlog::note(worker_no, 0, false);
                     let stats = std::mem::replace(&mut w.borrow_mut().stats, BatchStats::new());
                     stats
                 })
@@ -541,10 +556,16 @@ pub fn determinism_check<S: Scenario>(scn: &Arc<S>, cfg: &CheckCfg, tag: &str, s
         let seed = cfg.verif_seed;
         let tier = cfg.tier;
         hs.push(std::thread::Builder::new().stack_size(8 << 20).spawn(move || {
+            let skip = crate::crashlog::skip_list();
             for idx in idxs {
+                if skip.contains(&(crate::crashlog::CURRENT_PART.load(Ordering::Relaxed), idx)) {
+                    continue;
+                }
                 let mut rng = Rng::new(run_seed(seed, &tag, idx));
                 let p = scn.generate(&mut rng, tier);
+                crate::crashlog::note(32 + w, idx, true);
                 let out = scn.execute(&p, false);
+                crate::crashlog::note(32 + w, idx, false);
                 first.lock().unwrap().insert(idx, out.digest());
             }
         }).unwrap());
@@ -553,9 +574,14 @@ pub fn determinism_check<S: Scenario>(scn: &Arc<S>, cfg: &CheckCfg, tag: &str, s
         h.join().map_err(|_| "determinism worker died".to_string())?;
     }
     let first = first.lock().unwrap().clone();
+    let skip = crate::crashlog::skip_list();
     for idx in indices {
+        if skip.contains(&(crate::crashlog::CURRENT_PART.load(Ordering::Relaxed), idx)) {
+            continue;
+        }
         let mut rng = Rng::new(run_seed(cfg.verif_seed, tag, idx));
         let p = scn.generate(&mut rng, cfg.tier);
+        crate::crashlog::note(40, idx, true);
         let out = scn.execute(&p, false);
         if first.get(&idx) != Some(&out.digest()) {
             return Err(format!("run index {} is not deterministic (two executions of the same seed differ); params={}", idx, serde_json::to_string(&p).unwrap_or_default()));
@@ -568,6 +594,7 @@ pub fn determinism_check<S: Scenario>(scn: &Arc<S>, cfg: &CheckCfg, tag: &str, s
                 return Err(format!("run index {}: replaying the recorded decision log does not reproduce the run (mismatches {}, {} vs {} decisions)", idx, out2.script_mismatch, out2.decisions.len(), out.decisions.len()));
             }
         }
+        crate::crashlog::note(40, idx, false);
         checked += 1;
     }
     Ok(checked)
@@ -783,7 +810,12 @@ pub fn check_scenarios(property: &str, cfg: &CheckCfg, parts: Vec<Box<dyn PartRu
     let mut assumptions = extra_assumptions;
     let mut determinism_checked = 0u64;
     let n_parts = parts.len() as u32;
-    for part in parts.iter() {
+    let only_part: Option<usize> = std::env::var("VERIF_ONLY_PART").ok().and_then(|s| s.parse().ok());
+    for (part_no, part) in parts.iter().enumerate() {
+        if only_part.map(|o| o != part_no).unwrap_or(false) {
+            continue;
+        }
+        crate::crashlog::CURRENT_PART.store(part_no, Ordering::Relaxed);
         let part_budget = cfg.budget / n_parts;
         let r = part.run(cfg, part_budget, &known, &replay_dir);
         determinism_checked += r.determinism_checked;
@@ -886,7 +918,9 @@ pub fn check_scenarios(property: &str, cfg: &CheckCfg, parts: Vec<Box<dyn PartRu
     });
     let ev_dir = root.join("evidence");
     std::fs::create_dir_all(&ev_dir).ok();
+    if std::env::var_os("VERIF_NO_EVIDENCE").is_none() {
     std::fs::write(ev_dir.join(if is_child { format!("{}.checked-build.json", property) } else { format!("{}.json", property) }), serde_json::to_string_pretty(&evidence).unwrap()).expect("cannot write evidence");
+    }
     println!(
         "{} {}: {} runs, {} distinct non-trivial, {} sched points, {} known-finding keys, {} new violations, {:.1}s",
         property,
@@ -925,6 +959,11 @@ pub trait PartRunner {
     fn name(&self) -> &'static str;
     fn property(&self) -> &'static str;
     fn replay_file(&self, file: &ReplayFile, verbose: bool) -> Result<bool, String>;
+    /// (parameters of run `idx`, key context) -- for runs the supervisor reports without having their outcome (process crashes)
+    fn params_of(&self, cfg: &CheckCfg, idx: u64) -> (Value, String);
+    fn engine(&self) -> &'static str;
+    /// executes the run described by a replay file's parameters in this process (the caller watches for its death)
+    fn execute_params(&self, params: &Value) -> Result<(), String>;
 }
 
 pub struct Part<S: Scenario>(pub Arc<S>);
@@ -938,6 +977,20 @@ impl<S: Scenario> PartRunner for Part<S> {
     }
     fn replay_file(&self, file: &ReplayFile, verbose: bool) -> Result<bool, String> {
         replay(&self.0, file, verbose)
+    }
+    fn params_of(&self, cfg: &CheckCfg, idx: u64) -> (Value, String) {
+        let tag = format!("{}/{}", self.0.property(), self.0.name());
+        let mut rng = Rng::new(run_seed(cfg.verif_seed, &tag, idx));
+        let p = self.0.generate(&mut rng, cfg.tier);
+        (serde_json::to_value(&p).unwrap_or(Value::Null), self.0.key_context(&p))
+    }
+    fn engine(&self) -> &'static str {
+        self.0.engine()
+    }
+    fn execute_params(&self, params: &Value) -> Result<(), String> {
+        let p: S::P = serde_json::from_value(params.clone()).map_err(|e| format!("bad params in replay file: {}", e))?;
+        let _ = self.0.execute(&p, false);
+        Ok(())
     }
     fn run(&self, cfg: &CheckCfg, budget: Duration, known: &[KnownFinding], replay_dir: &Path) -> PartResult {
         let scn = &self.0;
